@@ -2,7 +2,8 @@
    Pinned statements only: each proof is `exact <lemma>` from Proofs/. *)
 From Coq Require Import ZArith Znumtheory List.
 From Strand Require Import Base.ZUtil Generated.Constants Model.Outcome Model.Backend Model.ZBackend
-  Model.Exec Model.Params2048 Model.Ristretto Proofs.Laws Proofs.ZLaws Proofs.ZInst Proofs.PrimeCerts.
+  Model.Exec Model.Params2048 Model.Ristretto Proofs.Laws Proofs.ZLaws Proofs.ZInst Proofs.PrimeCerts
+  Base.ZpField Base.Edwards Model.RistrettoFast Model.RBackend Proofs.RistrettoGroup.
 Open Scope Z_scope.
 
 (* the code's own operations satisfy the laws of a commutative group of exponent q acted on by Z_q
@@ -49,6 +50,43 @@ Theorem C15_ristretto_order_and_field_prime :
   prime ell /\ prime fp /\ ell = 2 ^ 252 + 27742317777372353535851937790883648493 /\ fp = 2 ^ 255 - 19.
 Proof. exact (conj ell_prime (conj fp_prime ell_fp_values)). Qed.
 Print Assumptions C15_ristretto_order_and_field_prime.
+
+(* ristretto255 backend: the curve arithmetic of the executable model (extended coordinates over GF(2^255-19),
+   unified addition, negation, double-and-add) IS the group law of the Edwards curve -x^2+y^2 = 1+d x^2 y^2,
+   which is proved to be a commutative group law (complete, closed, associative, neutral element, inverses) —
+   no hypothesis: p prime, d a non-residue and i^2 = -1 are established by the kernel. *)
+Theorem C15_ristretto_curve_arithmetic : forall K : Kernel,
+  (forall P Q, valid P -> valid Q ->
+     valid (pt_add K P Q) /\ aff (pt_add K P Q) = Edwards.eadd Fp f1 fa fm fs fd dF (aff P) (aff Q)) /\
+  (forall P, valid P -> valid (pt_neg K P) /\ aff (pt_neg K P) = Edwards.eneg Fp fo (aff P)) /\
+  (forall e P, valid P ->
+     valid (pt_mul K e P) /\ aff (pt_mul K e P) = Edwards.nmul Fp f0 f1 fa fm fs fd dF (Z.to_nat e) (aff P)) /\
+  (valid pt_id /\ aff pt_id = Edwards.eid Fp f0 f1) /\
+  valid (pt_base K) /\
+  Edwards.nmul Fp f0 f1 fa fm fs fd dF Ln (aff (pt_base K)) = Edwards.eid Fp f0 f1 /\
+  (forall P Q, valid P -> valid Q -> aff P = aff Q -> pt_eqb K P Q = true).
+Proof.
+  intro K. exact (conj (pt_add_correct K) (conj (pt_neg_correct K) (conj (pt_mul_correct K)
+    (conj valid_id (conj (valid_base K) (conj (base_order K) (pt_eqb_of_aff K))))))).
+Qed.
+Print Assumptions C15_ristretto_curve_arithmetic.
+
+Theorem C15_edwards_group_law :
+  let onc := Edwards.onc Fp f1 fa fm fs dF in
+  let add := Edwards.eadd Fp f1 fa fm fs fd dF in
+  let id := Edwards.eid Fp f0 f1 in
+  let neg := Edwards.eneg Fp fo in
+  (forall P Q, onc P -> onc Q -> onc (add P Q)) /\
+  (forall P Q R, onc P -> onc Q -> onc R -> add (add P Q) R = add P (add Q R)) /\
+  (forall P Q, add P Q = add Q P) /\
+  (forall P, add id P = P) /\ onc id /\
+  (forall P, onc P -> onc (neg P) /\ add P (neg P) = id).
+Proof.
+  cbv zeta.
+  exact (conj E_onc (conj E_assoc (conj E_comm (conj E_id_l (conj E_onc_id
+          (fun P C => conj (E_onc_neg P C) (E_neg_r P C))))))).
+Qed.
+Print Assumptions C15_edwards_group_law.
 
 (* non-vacuity: a concrete parameter set meets the hypotheses *)
 Example C15_nonvacuous : GoodParams (mkP 23) /\ member (mkP 23) 4 /\ member (mkP 23) 1.
